@@ -305,6 +305,8 @@ var c18Tokens = []struct{ line, tok, class string }{
 	{"PING first :second trailing", "first", "two-params-trailing"},
 	{":irc.srv PING :with-source", "with-source", "with-source"},
 	{"PING :" + strings.Repeat("L", 400), strings.Repeat("L", 400), "long400"},
+	{"PING :" + strings.Repeat("M", 4200), strings.Repeat("M", 4200), "long4200 (beyond the read buffer)"},
+	{"PING :" + strings.Repeat("N", 9000), strings.Repeat("N", 9000), "long9000"},
 	{"PING :1234567890", "1234567890", "digits"},
 	{"PING : lead space", " lead space", "lead-space"},
 	{"@t=1 PING :tagged", "tagged", "tagged"},
